@@ -250,8 +250,8 @@ func TestVerif_C08(t *testing.T) {
 		return
 	}
 	prod, _ := c02Product()
-	nb := pick(r, 64, 1024)
-	per := pick(r, 120, 400)
+	nb := pick(r, 64, 512)
+	per := pick(r, 120, 300)
 	r.Parallel(nb, func(l *Local) {
 		rng := l.Rng
 		for i := 0; i < per; i++ {
